@@ -270,9 +270,9 @@ func TestCluster(t *testing.T) {
 			// a third of the clusters route through child routes (an alert in several groups, a second receiver)
 			switch rng.Intn(6) {
 			case 0:
-				m.cfg.Routes = []routeCfg{{Sel: "G1", Cont: true, Recv: "r2", T: m.cfg.T}, {Sel: "ALL", Recv: "r1", T: m.cfg.T}}
+				m.cfg.Routes = []routeCfg{{Sel: "G1", Cont: true, Recv: "r2"}, {Sel: "ALL"}}
 			case 1:
-				m.cfg.Routes = []routeCfg{{Sel: "AX", Cont: true, Recv: "r1", T: m.cfg.T, GBy: "none"}, {Sel: "CRIT", Recv: "r2", T: m.cfg.T}}
+				m.cfg.Routes = []routeCfg{{Sel: "AX", Cont: true, GBy: "none"}, {Sel: "CRIT", Recv: "r2"}, {Parent: 2, Sel: "G1", GBy: "all"}}
 			}
 			if len(m.cfg.Routes) > 0 {
 				m.cfg.R2 = []integ{{Kind: "webhook", Recv: "r2", Name: "webhook/0", SR: true}}
